@@ -929,6 +929,14 @@ Section ObjW.
       + unfold cpk in *. cbn [r_cache]. apply Forall_app. split; [exact CP4|constructor; [exact Hp|constructor]].
   Qed.
 
+  Lemma W_complete o c : W o -> W (fst (complete o c)).
+  Proof.
+    intros (S & PK & CP). destruct (st_complete maxblk o c (st_bnd _ _ S)) as [S1 H1].
+    split; [exact S1|]. split; [exact (pok_hdr _ _ _ _ H1 PK)|]. exact (cpk_ckc _ _ CP (ckc_complete o c)).
+  Qed.
+  Lemma W_d48_step o c : W o -> W (fst (d48_step o c)).
+  Proof. intros H. destruct (d48_step_cases o c) as [-> | ->]; [exact H|apply W_complete; exact H]. Qed.
+
   (* ---- ObjectReceiver::attach_fdt ---- *)
   Theorem W_or_attach id files ioti o c :
     W o -> forallb (fun f => ooti_ok maxblk smax (ff_oti f)) files = true -> ooti_ok maxblk smax ioti = true ->
@@ -940,7 +948,8 @@ Section ObjW.
     { apply find_some in Efind. rewrite forallb_forall in Hf. apply Hf. apply Efind. }
     assert (G0 : forall o1, W o1 ->
       W (snd (fst (let o2 := init_partition o1 in
-                   let (o3, c3) := init_writer E o2 c in
+                   let (o3a, c3a) := init_writer E o2 c in
+                   let (o3, c3) := d48_step o3a c3a in
                    let (o4, c4) := push_from_cache E o3 c3 in
                    let '(o5, c5) := match write_blocks E (S (length (r_blocks o4))) 0 o4 c4 with
                                     | (ROk x, cx) => (x, cx)
@@ -958,7 +967,8 @@ Section ObjW.
          destruct (ff_oti f) as [y|]; [inversion Ex; subst; exact Hff|subst ioti; exact Hi]. }
     intros o1 W1. cbv zeta.
     pose proof (W_init_partition o1 W1) as W2. set (o2 := init_partition o1) in *.
-    pose proof (W_init_writer o2 c W2) as W3. destruct (init_writer E o2 c) as [o3 c3]. cbn [fst] in W3.
+    pose proof (W_init_writer o2 c W2) as W3a. destruct (init_writer E o2 c) as [o3a c3a]. cbn [fst] in W3a.
+    pose proof (W_d48_step o3a c3a W3a) as W3. destruct (d48_step o3a c3a) as [o3 c3]. cbn [fst] in W3.
     pose proof (W_push_from_cache o3 c3 W3) as W4. destruct (push_from_cache E o3 c3) as [o4 c4]. cbn [fst] in W4.
     pose proof (W_write_blocks (S (length (r_blocks o4))) 0 o4 c4 W4) as W5.
     destruct (write_blocks E (S (length (r_blocks o4))) 0 o4 c4) as [[o5|o5] c5]; cbn [fst res_obj] in W5.
@@ -1259,6 +1269,11 @@ Section ObjW.
       cbn [fst]. unfold HB in *. cbn [r_oti r_blocks]. rewrite Eo4 in *. exact H4.
   Qed.
 
+  Lemma HB_d48_step o c : HB o -> HB (fst (d48_step o c)).
+  Proof.
+    intros H. destruct (d48_step_cases o c) as [-> | ->]; [exact H|]. apply HB_of_nil. apply complete_nil.
+  Qed.
+
   (* ---- ObjectReceiver::attach_fdt ---- *)
   Theorem HB_or_attach id files ioti o c :
     fec_out_ok E -> W o -> HB o ->
@@ -1271,7 +1286,8 @@ Section ObjW.
     { apply find_some in Efind. rewrite forallb_forall in Hf. apply Hf. apply Efind. }
     assert (G0 : forall o1, W o1 /\ HB o1 ->
       HB (snd (fst (let o2 := init_partition o1 in
-                   let (o3, c3) := init_writer E o2 c in
+                   let (o3a, c3a) := init_writer E o2 c in
+                   let (o3, c3) := d48_step o3a c3a in
                    let (o4, c4) := push_from_cache E o3 c3 in
                    let '(o5, c5) := match write_blocks E (S (length (r_blocks o4))) 0 o4 c4 with
                                     | (ROk x, cx) => (x, cx)
@@ -1307,8 +1323,10 @@ Section ObjW.
          - left. reflexivity. }
     intros o1 [W1 H1]. cbv zeta.
     pose proof (W_init_partition o1 W1) as W2. pose proof (HB_init_partition o1 H1) as H2. set (o2 := init_partition o1) in *.
-    pose proof (W_init_writer o2 c W2) as W3. pose proof (HB_init_writer o2 c H2) as H3.
-    destruct (init_writer E o2 c) as [o3 c3]. cbn [fst] in W3, H3.
+    pose proof (W_init_writer o2 c W2) as W3a. pose proof (HB_init_writer o2 c H2) as H3a.
+    destruct (init_writer E o2 c) as [o3a c3a]. cbn [fst] in W3a, H3a.
+    pose proof (W_d48_step o3a c3a W3a) as W3. pose proof (HB_d48_step o3a c3a H3a) as H3.
+    destruct (d48_step o3a c3a) as [o3 c3]. cbn [fst] in W3, H3.
     pose proof (W_push_from_cache o3 c3 W3) as W4.
     destruct (HB_push_from_cache o3 c3 Hfec (proj1 (proj2 W3)) (proj2 (proj2 W3)) H3) as [H4 _].
     destruct (push_from_cache E o3 c3) as [o4 c4]. cbn [fst] in W4, H4.
